@@ -39,12 +39,15 @@ type c20Case struct {
 	// Pre: with RegisterLate, a request executed before the registrations are
 	// made (dispatch must not depend on what the table evaluated earlier)
 	Pre *model.Op `json:"pre,omitempty"`
+	// ReRegister: the request is executed once, then every registration is made
+	// again with the opposite verdict and a new callback; the latest wins
+	ReRegister bool `json:"reRegister,omitempty"`
 }
 
 var c20Texts = map[string][]string{
 	"key":         {"pk = :h", ":h = pk", " pk = :h ", "pk =  :h", "pk = :h AND sk > :s", "sk > :s AND pk = :h"},
-	"filter":      {"a = :v", "A = :v", ":v = a", "v = :a", "a  = :v", " a = :v", "a = :v AND b = :w", "b = :w AND a = :v", "a <> :v", "attribute_exists(a)", "attribute_exists(A)"},
-	"conditional": {"a = :v", "A = :v", ":v = a", "v = :a", "a  = :v", " a = :v", "a = :v AND b = :w", "b = :w AND a = :v", "attribute_exists(a)", "attribute_not_exists(pk)", "attribute_not_exists(PK)"},
+	"filter":      {"a = :v", "A = :v", ":v = a", "v = :a", "a  = :v", " a = :v", "a = :v AND b = :w", "b = :w AND a = :v", "a <> :v", "attribute_exists(a)", "attribute_exists(A)", "à = :v", "Å = :v"},
+	"conditional": {"a = :v", "A = :v", ":v = a", "v = :a", "a  = :v", " a = :v", "a = :v AND b = :w", "b = :w AND a = :v", "attribute_exists(a)", "attribute_not_exists(pk)", "attribute_not_exists(PK)", "à = :v", "Å = :v"},
 	"update":      {"SET a = :v", "SET A = :v", "SET  a = :v", " SET a = :v ", "SET a = :v, b = :w", "SET a = :w, b = :v", "SET b = :w, a = :v", "REMOVE a", "REMOVE A", "ADD n :one"},
 }
 
@@ -205,6 +208,24 @@ func runC20(c c20Case, info *c20Info) (fl *failure) {
 			}
 			register(native, c.Regs, l)
 		}
+		regsInForce := c.Regs
+		if c.ReRegister {
+			if r := d.Apply(c.Req); r.Err == model.ErrRuntimePanic {
+				return newFail("runtime panic", "%s %s: %s", which, c.Req.Kind, r.ErrText)
+			}
+			for _, tn := range []string{"tblA", "tblB"} {
+				d.Apply(model.Op{Kind: "ClearTable", Table: tn})
+				for _, it := range c.Items {
+					d.Apply(model.Op{Kind: "Put", Table: tn, Item: it})
+				}
+			}
+			regsInForce = nil
+			for _, r := range c.Regs {
+				r.ID, r.Verdict = r.ID+100, !r.Verdict
+				regsInForce = append(regsInForce, r)
+			}
+			register(native, regsInForce, l)
+		}
 		l.fired = nil
 		before := d.Snapshot()
 		got := d.Apply(c.Req)
@@ -215,7 +236,7 @@ func runC20(c c20Case, info *c20Info) (fl *failure) {
 		op := c.Req
 		var regs []c20Reg
 		if c.NativeOn {
-			regs = c.Regs
+			regs = regsInForce
 		}
 		find := func(kind, text string) *c20Reg {
 			if text == "" {
@@ -399,7 +420,7 @@ func init() {
 	}
 }
 
-const ruleC20 = "rapid: a set of registrations - subset of {tblA, tblB} x {key, filter, conditional, update} x texts from pools built to collide under character sorting (anagram pairs such as 'a = :v' / ':v = a' / 'v = :a', 'SET a = :v, b = :w' / 'SET a = :w, b = :v', whitespace variants, letter-case variants 'a' / 'A', prefixes), each with an instrumented callback that records its id and returns a generated verdict (matchers) or writes a marker attribute and deletes another (updaters); the native interpreter on or off, activated before or after table creation, registrations made on the client's own interpreter or installed with SetInterpreter before or after table creation, before or after the tables exist, optionally after the same request has already been executed once unregistered; then one request (Scan with filter, Query with key condition and optional filter, Put / Delete / Update with condition, Update with update text) on either table, on both SDK clients. Oracle: for each expression the request evaluates, a registration for exactly (table, kind, trimmed text) -> that callback and only it fires and its verdict / mutation decides the outcome (texts equal after collapsing surrounding and repeated whitespace are one registration, the latest wins); no such registration -> no callback fires, matches fall back to the built-in interpreter (reference model), updates fail as unsupported and change nothing. Non-trivial = request whose text is an anagram (not whitespace-equal) of a registered text of the same slot, or equal to a text registered for another table or kind; distinct = hash of the case."
+const ruleC20 = "rapid: a set of registrations - subset of {tblA, tblB} x {key, filter, conditional, update} x texts from pools built to collide under character sorting (anagram pairs such as 'a = :v' / ':v = a' / 'v = :a', 'SET a = :v, b = :w' / 'SET a = :w, b = :v', whitespace variants, letter-case variants 'a' / 'A', non-ASCII names whose UTF-8 bytes look like white space to byte-wise code, prefixes), each with an instrumented callback that records its id and returns a generated verdict (matchers) or writes a marker attribute and deletes another (updaters); the native interpreter on or off, activated before or after table creation, registrations made on the client's own interpreter or installed with SetInterpreter before or after table creation, before or after the tables exist, optionally after the same request has already been executed once unregistered, or executed once and every registration then made again with the opposite verdict and a new callback; then one request (Scan with filter, Query with key condition and optional filter, Put / Delete / Update with condition, Update with update text) on either table, on both SDK clients. Oracle: for each expression the request evaluates, a registration for exactly (table, kind, trimmed text) -> that callback and only it fires and its verdict / mutation decides the outcome (texts equal after collapsing surrounding and repeated whitespace are one registration, the latest wins); no such registration -> no callback fires, matches fall back to the built-in interpreter (reference model), updates fail as unsupported and change nothing. Non-trivial = request whose text is an anagram (not whitespace-equal) of a registered text of the same slot, or equal to a text registered for another table or kind; distinct = hash of the case."
 
 // TestC20 decides property C20.
 func TestC20(t *testing.T) {
@@ -412,6 +433,7 @@ func TestC20(t *testing.T) {
 			ViaSetInterpreter:    rapid.Bool().Draw(rt, "viaSetInterpreter"),
 			SetBeforeCreate:      rapid.Bool().Draw(rt, "setBeforeCreate"),
 			RegisterLate:         rapid.Bool().Draw(rt, "registerLate"),
+			ReRegister:           rapid.IntRange(0, 3).Draw(rt, "reRegister") == 2,
 		}
 		c.Items = []model.Item{
 			{"pk": model.Str("p1"), "sk": model.Str("a"), "a": model.Str("x"), "b": model.Str("y"), "n": model.Num("1")},
